@@ -1241,6 +1241,35 @@ def excluded_points(ctx, reading):
             res["overall %r + %r" % (its0, its1)] = e2 if e2 else repr(
                 [[int(x) for x in sg] for sg in r2["overall"].get("rl = 0", [])])
             found += oracle_check(ctx, reading, tree, ("err", e2) if e2 else ("ok", r2), log)
+        # restart directories that APPEAR out of numerical order (restart 1 copied back from an archive after restart 2
+        # was catalogued): every restart on disk is catalogued, and 'overall' describes the iterations on disk
+        # (the merge followed the order of cataloguing and set the end of a range to that of the restart catalogued
+        # last; repaired in /repo, see known_findings.json).  Judged against the generator's ground truth only: the
+        # model's histories add restarts in increasing order.
+        for j, order in enumerate([[0, 2, 1], [1, 0, 2]]):
+            its = {0: [0, 16, 32, 48], 1: [64, 80, 96], 2: [112, 128, 144, 160]}
+            plan = {"name": "simO", "layout": "onefile", "nchunks": 0, "with_m": False, "xyz": 0, "with_attr": True,
+                    "numbers": order, "adversarial": False,
+                    "restarts": [{"levels": [{"stride": 16, "its": its[n]}], "checkpoints": [], "empty": False,
+                                  "variables": (["alp"], [])} for n in order]}
+            sub = os.path.join(root, "o%d" % j)
+            os.makedirs(sub)
+            tree = Tree(ctx, plan, sub)
+            tree.add_restart()
+            tree.add_restart()
+            call(reading.iterations, tree.param, skip_last=False, verbose=False)
+            tree.add_restart()
+            log = [["add"], ["add"], ["iter", False], ["add"], ["iter", False]]
+            e2, r2 = call(reading.iterations, tree.param, skip_last=False, verbose=False)
+            res["restarts appearing in the order %r: overall" % order] = e2 if e2 else repr(
+                [[int(x) for x in sg] for sg in r2["overall"].get("rl = 0", [])])
+            found += oracle_check(ctx, reading, tree, ("err", e2) if e2 else ("ok", r2), log)
+            e3, r3 = call(reading.read_iterations, tree.param, skip_last=False, verbose=False)
+            if e3 or sorted(k for k in r3 if k != "overall") != [0, 1, 2]:
+                found += 1 if ctx.violation("read_iterations() after restarts appeared in the order %r lists %s, on disk [0, 1, 2]"
+                                            % (order, e3 or sorted(k for k in r3 if k != "overall")),
+                                            {"kind": "history", "plan": plan, "ops": log + [["readit", False]]},
+                                            {"site": "restart-missing", "name_class": "benign"}) else 0
         # regrids inside a restart (fixed by efae800): 2 -> 3 chunks at iteration 6; one unnumbered chunk ->
         # several; several -> one unnumbered; with a second level that is not regridded
         for j, (base, segs, layout) in enumerate([(2, [[6, 3]], "onefile"), (0, [[4, 3]], "onefile"),
